@@ -347,6 +347,47 @@ def gen(seed, run, tier='quick'):
              'expect': 'accept'})
         scenario_probes += [('uu*', km, xu), ('uu*', xu, km),
                             ('qq*', km, xu)]
+    if rng.random() < 0.15:
+        # scenario: a derived type without reference unit that has units
+        # for MULTIPLES only (x/g and x/t, no x/kg): the quotient of the
+        # bare units has no unit to be delivered in - whatever the library
+        # answers, it must not depend on which multiple was declared first
+        def add(act):
+            decl.apply(model, act)
+            decls.append(act)
+        n = model.fresh()
+        ln, lref = f'T{n}', f'r{n}'
+        add({'a': 'base_type', 'name': ln, 'ref_sym': lref,
+             'quantum': None, 'expect': 'accept'})
+        ks = rng.sample([{'t': 'int', 'v': '1000'}, {'t': 'dec', 'v': '0.001'},
+                         {'t': 'frac', 'v': '1/3'}, {'t': 'int', 'v': '60'},
+                         {'t': 'prefix', 'v': 'KILO'}], 2)
+        gs = []
+        for k_ in ks:
+            n = model.fresh()
+            gs.append(f'u{n}')
+            add({'a': 'scaled_unit', 'type': ln, 'sym': gs[-1],
+                 'parent': lref, 'k': k_, 'via': 'rmul', 'expect': 'accept'})
+        n = model.fresh()
+        nn = f'T{n}'
+        add({'a': 'base_type', 'name': nn, 'ref_sym': None,
+             'quantum': None, 'expect': 'accept'})
+        n = model.fresh()
+        nu = f'u{n}'
+        add({'a': 'plain_unit', 'type': nn, 'sym': nu, 'expect': 'accept'})
+        s_ = rng.choice([-1, -1, 1])
+        n = model.fresh()
+        pn = f'D{n}'
+        add({'a': 'derived_type', 'name': pn, 'items': [[nn, 1], [ln, s_]],
+             'style': rng.randrange(3), 'ref_sym': None, 'auto_ref': False,
+             'quantum': None, 'expect': 'accept', 'dup_dim': False})
+        for g_ in gs:
+            n = model.fresh()
+            add({'a': 'derive_unit', 'type': pn, 'units': [nu, g_],
+                 'sym': f'v{n}', 'expect': 'accept'})
+        op_ = '/' if s_ < 0 else '*'
+        scenario_probes += [('uu' + op_, nu, lref), ('qq' + op_, nu, lref),
+                            ('qu' + op_, nu, lref), ('uu' + op_, nu, gs[0])]
     if rng.random() < 0.1:
         # scenario: a type whose dimension cancels (Cycles = Frequency *
         # Duration with Frequency = 1 / Duration).  Before it is declared
